@@ -373,6 +373,10 @@ class Built:
                         node = for_all(self.vars[u], node)
                     fas.append(node)
                 conds = (fas + conds) if case.get('fafirst') else (conds + fas)
+            if case.get('direct'):
+                # the quantifier applied straight to a predicate-form term: the(T(From(d), f=v)) / an(T(From(d), f=v))
+                self.q = (the if case['quant'] == 'the' else an)(self.sel[0])
+                return self.q
             if case.get('entity', len(self.sel) == 1):
                 desc = entity(self.sel[0], *conds)
             else:
